@@ -40,6 +40,8 @@ pub fn get_or_create_resource_node(
     match node {
         Some(node) => node,
         None => {
+            #[cfg(flea1lt_sentinel_rust_verif)]
+            crate::verif::sched::point("ns:miss");
             if RESOURCE_NODE_MAP.read().unwrap().len() >= DEFAULT_MAX_RESOURCE_AMOUNT {
                 logging::warn!(
                     "[get_or_create_resource_node] Resource amount exceeds the threshold {}",
